@@ -55,9 +55,10 @@ static void iss_hex (const unsigned char *p, size_t n) {
 	for (size_t i = 0; i < n; i++) { t[2 * i] = hx[p[i] >> 4]; t[2 * i + 1] = hx[p[i] & 15]; }
 	iss_raw (t, 2 * n); free (t);
 }
+static FILE *out;
 static void print_hex (const unsigned char *p, size_t n) {
-	if (n == 0) { putchar ('-'); return; }
-	for (size_t i = 0; i < n; i++) printf ("%02x", p[i]);
+	if (n == 0) { fputc ('-', out); return; }
+	for (size_t i = 0; i < n; i++) fprintf (out, "%02x", p[i]);
 }
 
 /* kernel-side bookkeeping used for the direct oracles */
@@ -97,6 +98,7 @@ int __wrap_fcntl (int fd, int cmd, ...) {
 	Entry *e = pop (S_fcntl); iss ("fcntl:%d:%d:%ld", fd, cmd, (long) (int) arg);
 	long long r = fin (e);
 	if (r >= 0 && cmd == F_SETFD && fd >= 0 && fd < MAXFD) cloexec_tab[fd] = ((int) arg & FD_CLOEXEC) != 0;
+	if (r >= 0 && cmd == F_GETFD && fd >= 0 && fd < MAXFD) cloexec_tab[fd] = (r & FD_CLOEXEC) != 0;   /* the kernel's answer is the truth */
 	return (int) r;
 }
 int __wrap_fcntl64 (int fd, int cmd, ...) {
@@ -279,15 +281,15 @@ static void clear_script (void) {
 }
 
 static void print_getters (PSocket *s) {
-	printf ("%d,%d,%d,%d,%d,%d,%d,%d,%d,%d,", p_socket_get_fd (s), (int) p_socket_get_family (s), (int) p_socket_get_type (s),
+	fprintf (out, "%d,%d,%d,%d,%d,%d,%d,%d,%d,%d,", p_socket_get_fd (s), (int) p_socket_get_family (s), (int) p_socket_get_type (s),
 		(int) p_socket_get_protocol (s), (int) p_socket_get_keepalive (s), (int) p_socket_get_blocking (s),
 		p_socket_get_listen_backlog (s), p_socket_get_timeout (s), (int) p_socket_is_connected (s), (int) p_socket_is_closed (s));
-	if (s) printf ("%d", (int) s->listening); else printf ("-");
+	if (s) fprintf (out, "%d", (int) s->listening); else fprintf (out, "-");
 }
 
 typedef struct {
 	long long ret; PError *err;
-	int slot, newslot, created;
+	int slot, newslot, created, adopted;
 	int want_addr_out; PSocketAddress *addr_out;
 } CallOut;
 
@@ -299,27 +301,27 @@ static void begin_call (void) {
 
 static void answer (CallOut *o) {
 	in_call = 0;
-	printf ("r=%lld e=", o->ret);
+	fprintf (out, "r=%lld e=", o->ret);
 	if (o->err) {
-		printf ("%d/%d/", p_error_get_code (o->err), p_error_get_native_code (o->err));
+		fprintf (out, "%d/%d/", p_error_get_code (o->err), p_error_get_native_code (o->err));
 		const char *m = p_error_get_message (o->err);
-		for (; m && *m; m++) putchar (*m == ' ' ? '_' : *m);
+		for (; m && *m; m++) fputc (*m == ' ' ? '_' : *m, out);
 		p_error_free (o->err);
-	} else putchar ('-');
-	printf (" d="); print_hex ((const unsigned char *) cur_buf, cur_written);
-	printf (" a=");
-	if (o->addr_out != NULL && have_na) { printf ("%lld:", last_na_len); print_hex (last_na, last_na_n); }
-	else putchar ('-');
+	} else fputc ('-', out);
+	fprintf (out, " d="); print_hex ((const unsigned char *) cur_buf, cur_written);
+	fprintf (out, " a=");
+	if (o->addr_out != NULL && have_na) { fprintf (out, "%lld:", last_na_len); print_hex (last_na, last_na_n); }
+	else fputc ('-', out);
 	if (o->addr_out) p_socket_address_free (o->addr_out);
-	printf (" iss=%s left=%d g=", isslen ? isslog : "-", qt - qh);
-	if (o->slot >= 0) print_getters (slots[o->slot]); else putchar ('-');
-	printf (" n=");
-	if (o->newslot >= 0 && o->created) print_getters (slots[o->newslot]); else putchar ('-');
-	printf (" cx=");
-	if (o->newslot >= 0 && o->created) { int fd = slots[o->newslot]->fd; printf ("%d", fd >= 0 && fd < MAXFD ? cloexec_tab[fd] : 0); } else putchar ('-');
-	printf (" ns=");
-	if (n_send == 0) putchar ('-'); else putchar (n_send == n_send_nosig ? '1' : '0');
-	putchar ('\n');
+	fprintf (out, " iss=%s left=%d g=", isslen ? isslog : "-", qt - qh);
+	if (o->slot >= 0) print_getters (slots[o->slot]); else fputc ('-', out);
+	fprintf (out, " n=");
+	if (o->newslot >= 0 && o->created) print_getters (slots[o->newslot]); else fputc ('-', out);
+	fprintf (out, " cx=");
+	if (o->newslot >= 0 && o->created && !o->adopted) { int fd = slots[o->newslot]->fd; fprintf (out, "%d", fd >= 0 && fd < MAXFD ? cloexec_tab[fd] : 0); } else fputc ('-', out);
+	fprintf (out, " ns=");
+	if (n_send == 0) fputc ('-', out); else fputc (n_send == n_send_nosig ? '1' : '0', out);
+	fputc ('\n', out);
 	clear_script ();
 }
 
@@ -334,11 +336,13 @@ static PSocketAddress *mk_addr (const char *s, int *ok) {
 	return a;
 }
 
-#define BAD do { puts ("bad-op"); goto next; } while (0)
+#define BAD do { fputs ("bad-op\n", out); goto next; } while (0)
 
 int main (void) {
 	static char line[1 << 21];
 	char *tok[16];
+	/* the library prints warnings with printf(): keep stdout for the answers only */
+	out = fdopen (dup (1), "w"); dup2 (2, 1);
 	p_libsys_init ();
 	while (fgets (line, sizeof line, stdin)) {
 		int nt = 0;
@@ -348,9 +352,9 @@ int main (void) {
 			in_call = 0;
 			for (int i = 0; i < NSLOT; i++) if (slots[i]) { if (!slots[i]->closed) { slots[i]->closed = 1; } p_socket_free (slots[i]); slots[i] = NULL; }
 			clear_script (); dead = 0; memset (cloexec_tab, 0, sizeof cloexec_tab);
-			puts ("ok"); goto next;
+			fputs ("ok\n", out); goto next;
 		}
-		if (dead) { puts ("dead"); goto next; }
+		if (dead) { fputs ("dead\n", out); goto next; }
 		if (!strcmp (tok[0], "sys")) {
 			if (nt < 3 || qt >= MAXQ) BAD;
 			Entry e; memset (&e, 0, sizeof e); e.len = 4; e.sys = -1;
@@ -369,7 +373,7 @@ int main (void) {
 			}
 			if (!okx) { free (e.data); free (e.sa); BAD; }
 			q[qt++] = e;
-			puts ("ok"); goto next;
+			fputs ("ok\n", out); goto next;
 		}
 		{
 			CallOut o; memset (&o, 0, sizeof o); o.slot = o.newslot = -1;
@@ -379,7 +383,7 @@ int main (void) {
 			cur_buf = NULL; cur_cap = 0;
 			if (setjmp (stop_jmp)) {
 				in_call = 0; dead = 1; clear_script ();
-				puts (stop_msg); goto next;
+				fprintf (out, "%s\n", stop_msg); goto next;
 			}
 			if (!strcmp (tok[0], "initonce") && nt == 1) { begin_call (); p_socket_init_once (); o.ret = 1; answer (&o); }
 			else if (!strcmp (tok[0], "new") && nt == 5) {
@@ -389,7 +393,7 @@ int main (void) {
 			}
 			else if (!strcmp (tok[0], "newfd") && nt == 3) {
 				if (!parse_slot (tok[1], &ns) || slots[ns] || !parse_ll (tok[2], &a1)) BAD;
-				begin_call (); slots[ns] = p_socket_new_from_fd ((pint) a1, &o.err);
+				o.adopted = 1; begin_call (); slots[ns] = p_socket_new_from_fd ((pint) a1, &o.err);
 				o.newslot = ns; o.created = slots[ns] != NULL; o.ret = o.created; answer (&o);
 			}
 			else if (!strcmp (tok[0], "free") && nt == 2) {
@@ -495,7 +499,7 @@ int main (void) {
 			else BAD;
 		}
 next:
-		fflush (stdout);
+		fflush (out);
 	}
 	return 0;
 }
